@@ -387,6 +387,17 @@ def random_plan(rng, money=False, max_base=4, max_derived=4, max_units=4,
         t = w.types[tname]
         if tname not in tletter:
             continue            # subclasses stay empty
+        if t.has_ref and t.quantum is not None and int_terms and \
+                rng.random() < 0.6:
+            # units whose scale is not a multiple of the type's quantum
+            # (only a term can declare them: factor * unit is a quantity
+            # and gets rounded): one unit of them is less than a quantum
+            for _ in range(rng.randint(1, 2)):
+                kf = t.quantum * rng.choice([F(1, 10), F(3, 2), F(1, 4),
+                                             F(1, 1000), F(7, 3)])
+                add(Decl("term", t=tname, sym=newsym(tname),
+                         kkind="F" if dec_str(kf) is None else None,
+                         items=[(("n", kf), 1), (("u", t.ref), 1)]))
         if t.has_ref:
             for _ in range(rng.randint(0, max_units)):
                 sym = newsym(tname)
